@@ -1,4 +1,4 @@
-// Package mixsim hosts checks that draw on more than one engine. C14 and C19 draw on two engines. C19 (unambiguous sign bytes and
+// Package mixsim hosts checks that draw on more than one engine. C09, C14 and C19 draw on several engines. C19 (unambiguous sign bytes and
 // keys, untrusted bytes never crash a node) is decided on the consensus engine with corrupted
 // messages (bftsim) and on the full-node engine with corrupted transactions and block messages
 // (nodesim); the tape chooses the engine per run.
@@ -11,6 +11,7 @@ import (
 	"verif/nodesim"
 	"verif/p2psim"
 	"verif/simkit"
+	"verif/storesim"
 )
 
 func runC19(c *simkit.Ctx) {
@@ -40,9 +41,24 @@ func runC14(c *simkit.Ctx) {
 	nodesim.RunChain(c)
 }
 
+// C09: crash consistency is decided on the store engine (crash images at every file-system operation
+// of a commit) and, in one run out of seven, on whole nodes: a node process dies between blocks with
+// all or none of its unsynced data, restarts on the surviving image and must hold exactly the chain's
+// state at the height it comes back with.
+func runC09(c *simkit.Ctx) {
+	if c.T.Chance(6, 7) {
+		c.Probe("engine_storesim")
+		storesim.Run(c)
+		return
+	}
+	c.Probe("engine_nodesim")
+	nodesim.RunChain(c)
+}
+
 func TestWorker(t *testing.T) {
 	simkit.WorkerMain(t, "mixsim", map[string]simkit.EngineSpec{
 		"C19": {Run: runC19, Bubble: true, LeakOK: true},
 		"C14": {Run: runC14, Bubble: true, LeakOK: true},
+		"C09": {Run: runC09, Bubble: true, LeakOK: true},
 	})
 }
